@@ -184,6 +184,17 @@ def main():
             vals = {"s": [float(i) - 1 for i in range(n)]}
             for s in list(RN) + ["mq.1::0", "MQ.1::-1", "mq.1>>0", "mq..", "mqx1::0", "Mqx1", "mq11<<0"]:
                 check(rac, col, vals, s, "Table._get_regexp_indices")
+    rac.section("prefix-names", "index columns over names that are proper prefixes of one another ('ip1', 'ip10', 'IP1b', 'ip5', 'e'): top-level "
+                "alternations, grouped or not, in either order, with and without count / shift, denote the rows whose WHOLE name matches one alternative",
+                "length 1..4 over 5 names x 14 selectors")
+    PN = ("ip1", "ip10", "IP1b", "ip5", "e")
+    for n in range(1, 5):
+        for col in itertools.product(PN, repeat=n):
+            if rac.out_of_time(0.65):
+                break
+            vals = {"s": [float(i) - 1 for i in range(n)]}
+            for s in ["ip1|ip5", "ip5|ip1", "ip1|e", "(ip1|ip5)", "ip|e", "ip1", "ip1.*", "ip1|ip5::0", "ip1|ip5::-1", "ip1|e>>0", "e|ip1|ip10", "ip1|", "|ip1", "ip1$|e"]:
+                check(rac, col, vals, s, "Table._get_regexp_indices")
     rac.section("composition", "rows[s1, s2] == rows[s1].rows[s2] (and indices / mask of the tuple describe the same rows) for "
                 "pairs of selectors", "columns of length 3..4, about 40 x 40 selector pairs", exhaustive=False)
     import numpy as np
